@@ -52,7 +52,10 @@ SubValue(d, i) ==
 RECURSIVE Declared(_, _, _, _)
 Declared(d, i, S, env) ==
   LET atoms == {b \in UNION {Branches(t, env) : t \in S} : M3(i, b, env, {}, FALSE) # "F"} IN
-  IF \E b \in atoms : b.t \in {"prim", "both"} /\ (b.t = "both" \/ b.p \in {"any", "unknown", "object"}) THEN TRUE
+  \* no branch of the reference explains why the input was accepted (a contested acceptance, e.g. `undefined` for a required
+  \* property that admits null): nothing to compare the kept keys with
+  IF atoms = {} THEN TRUE
+  ELSE IF \E b \in atoms : b.t \in {"prim", "both"} /\ (b.t = "both" \/ b.p \in {"any", "unknown", "object"}) THEN TRUE
   ELSE CASE d.k = "obj" ->
               \A key \in Keys(d) :
                 LET declaring == {b \in atoms : b.t = "obj" /\ (HasProp(b, key) \/
